@@ -21,6 +21,15 @@ from mc import core
 
 PY = "/venv/bin/python"
 
+# How a transition `import m` out of a state is executed when m is not loaded yet in that state:
+#   default       a fresh interpreter replays the state's path and then imports m
+#   VERIF_C01_FORK=1  the state's interpreter (built once) forks once per candidate
+# Both were measured on this VM (16 vCPUs): 685 fresh interpreters take 27-28 s, the same 685
+# transitions as forks of 24 state processes 34-37 s (fork + copy-on-write of a process that has
+# ioflo loaded does not scale across cores here), so fresh is the default.  Candidates already
+# loaded in the state are imported in place in one process per state in both modes.
+USE_FORK = os.environ.get("VERIF_C01_FORK", "") == "1"
+
 # The program run inside the isolated interpreter.  It must not import anything that is not
 # already loaded by interpreter start-up (sys, os) except the C-only zlib for the digests.
 DRIVER = r"""
@@ -359,10 +368,21 @@ class Explorer:
             work = [(path, self.mods) for path, _ in frontier]
             keyof = {tuple(path): key for path, key in frontier}
             if depth == 0:
-                trs = self.transitions(work, os.environ.get("C01_D0", "fork"), alone=None)
+                trs = self.transitions(work, "fork" if USE_FORK else "direct", alone=None)
                 for tr in trs:               # the alone digests are the reference for everything else
                     if tr["res"][0] == "ok":
                         self.alone[tr["cand"]] = tr["info"][tr["cand"]]
+            elif not USE_FORK:
+                # one in-place job per state for the already loaded candidates, one fresh interpreter
+                # (path replayed) for each candidate that is not loaded yet
+                w_in, w_out = [], []
+                for path, key in frontier:
+                    w_in.append((path, [m for m in self.mods if m in key[0]]))
+                    w_out.extend((path, [m]) for m in self.mods if m not in key[0])
+                trs = self.transitions(w_in, "fork", alone=self.alone) + self.transitions(w_out, "direct", alone=self.alone)
+                pos = {m: i for i, m in enumerate(self.mods)}
+                porder = {tuple(pth): i for i, (pth, _) in enumerate(frontier)}
+                trs.sort(key=lambda tr: (porder[tuple(tr["path"])], pos[tr["cand"]]))
             else:
                 trs = self.transitions(work, "fork", alone=self.alone)
             nxt = []
@@ -429,10 +449,11 @@ def run():
         "supported interpreter = /venv/bin/python (3.12); `-I` isolates from environment, user site and cwd; the driver imports only sys, os, zlib",
         "state abstraction: two paths are the same state when the same ioflo modules are in sys.modules with the same public "
         "namespaces (fingerprint over every loaded ioflo module) and the same imports failed",
-        "every state (the initial, empty one included) is materialised in a fresh `python -I` interpreter that replays the path; its "
-        "outgoing transitions each run in an os.fork() of that interpreter (imports of already loaded modules run in place: a "
-        "sys.modules lookup), so the first import of every path still happens in a brand-new interpreter; additionally every "
-        "module is imported alone in its own fresh `python -I -S` interpreter (no site: not even `collections` preloaded)",
+        "every state is materialised in a fresh `python -I` interpreter that replays the path; a transition to a module that is "
+        "not loaded yet runs in its own fresh interpreter (path replayed, then the import) -- or, with VERIF_C01_FORK=1, in an "
+        "os.fork() of the state's interpreter; imports of already loaded modules run in place (a sys.modules lookup that runs no "
+        "module code); additionally every module is imported alone in its own fresh `python -I -S` interpreter (no site: not "
+        "even `collections` preloaded)",
         "`the result does not depend on what was imported before`: after every transition the namespace of every loaded ioflo "
         "module (what a following `import x` returns) must equal the namespace x has when imported alone",
         "namespace = public (no leading underscore) module attributes described by kind and defining module, excluding a package's own "
